@@ -98,7 +98,6 @@ def oracle(line, out):
     if len(steps) != len(ops) + 1:
         return "malformed observation (steps %d, ops %d)" % (len(steps), len(ops))
     q = [Q(), Q()]
-    tainted = False        # an op violated a documented caller obligation
     lossy = [False, False]  # queue lost bytes in a *reported* error
     for i, opt in enumerate(ops):
         st = parse_step(steps[i])
@@ -177,32 +176,28 @@ def oracle(line, out):
         elif op == "pk":
             rc, dlen, h = res.split(":")[1].split(",")
             rc, dlen = int(rc), int(dlen)
-            if not tainted:
-                if dlen > a[0] or dlen > len(me.data):
-                    return "%s: peek returned more than asked/available" % where
-                if crc(me.data[:dlen]) != h:
-                    return "%s: peek returned bytes that are not the queue's prefix" % where
-                if rc == 0 and dlen != min(a[0], len(me.data)) and unreadable_ok(st["q%d" % qi]) is False:
-                    return "%s: peek succeeded with %d bytes, expected %d" % (where, dlen, min(a[0], len(me.data)))
-                if rc != 0 and a[0] > 0 and unreadable_ok(st["q%d" % qi]) is False:
-                    return "%s: peek failed although every queued byte is readable" % where
+            if dlen > a[0] or dlen > len(me.data):
+                return "%s: peek returned more than asked/available" % where
+            if crc(me.data[:dlen]) != h:
+                return "%s: peek returned bytes that are not the queue's prefix" % where
+            if rc == 0 and dlen != min(a[0], len(me.data)):
+                return "%s: peek succeeded with %d bytes, expected %d" % (where, dlen, min(a[0], len(me.data)))
+            if rc != 0 and a[0] > 0:
+                return "%s: peek failed although %d bytes are queued" % (where, len(me.data))
         elif op == "rd":
             r = res.split(":")[1].split(",")
             if int(r[0]) == 0:
-                if not tainted:
-                    if a[0] > len(me.data):
-                        return "%s: read_data succeeded beyond queue length" % where
-                    if crc(me.data[:a[0]]) != r[1]:
-                        return "%s: read_data returned bytes that are not the queue's prefix" % where
+                if a[0] > len(me.data):
+                    return "%s: read_data succeeded beyond queue length" % where
+                if crc(me.data[:a[0]]) != r[1]:
+                    return "%s: read_data returned bytes that are not the queue's prefix" % where
                 me.consume(a[0])
-            elif not tainted and 0 < a[0] <= len(me.data) and unreadable_ok(st["q%d" % qi]) is False:
-                return "%s: read_data failed although %d bytes are queued and readable" % (where, len(me.data))
+            elif 0 < a[0] <= len(me.data):
+                return "%s: read_data failed although %d bytes are queued" % (where, len(me.data))
         elif op == "rs":
             me.data, me.bin, me.bout = b"", 0, 0
         else:
             return None
-        if tainted:
-            continue
         # ---- state checks after every operation
         for j in (0, 1):
             o = st["q%d" % j]
@@ -218,11 +213,12 @@ def oracle(line, out):
             tot = sum(int(c[1:].rstrip("+")) for c in o["layout"])
             if tot != o["length"]:
                 return "%s: q%d chunks hold %d bytes, length says %d" % (where, j, tot, o["length"])
-            if o["readable"] == o["length"]:
-                if o["crc"] != crc(q[j].data):
-                    return "%s: q%d content differs from the FIFO reference (bytes lost, duplicated, reordered or modified)" % (where, j)
-            elif unreadable_ok(o) is False:
+            if o["readable"] != o["length"]:
+                # every queued byte must be obtainable: a chunk whose file can
+                # no longer be opened or read has lost its bytes
                 return "%s: q%d holds %d bytes but only %d are readable" % (where, j, o["length"], o["readable"])
+            if o["crc"] != crc(q[j].data):
+                return "%s: q%d content differs from the FIFO reference (bytes lost, duplicated, reordered or modified)" % (where, j)
         ntemp = sum(1 for j in (0, 1) for c in st["q%d" % j]["layout"] if c[0] == "T")
         nfd = sum(1 for j in (0, 1) for c in st["q%d" % j]["layout"] if c.endswith("+"))
         if len(st["t"]) != ntemp:
@@ -239,13 +235,6 @@ def oracle(line, out):
         if o["length"] or o["bin"] or o["bout"] or o["layout"]:
             return "after reset: q%d not empty" % j
     return None
-
-
-def unreadable_ok(o):
-    """a file chunk without descriptor that is not the owning temp chunk may
-    refer to an already unlinked temp file (documented hazard of partial
-    steals from closed temp files): unreadable bytes are only acceptable then"""
-    return any(c[0] == "F" and not c.endswith("+") for c in o["layout"])
 
 
 # --------------------------------------------------------------------------
@@ -509,7 +498,7 @@ HAND = [
     "seq 1024 0 1 - - - " + " ".join("an,1,%d,1030" % i for i in range(18)) + " am,0,40,10 sw,1,10 pk,1,100000",
     "seq 1024 0 1 - - - " + " ".join("an,0,%d,1030" % i for i in range(18)) + " sw,1,100000 pk,1,100000",
     "seq 1024 2000 1 s20000,s3 - - " + " ".join("an,0,%d,1030" % i for i in range(20)) + " sw,1,100000 pk,1,100000",
-    # temp file size threshold, closed temp file, partial steal of a closed temp chunk, unlink hazard
+    # temp file size threshold, closed temp file, partial steal of a closed temp chunk (gets its own descriptor), owner consumed
     "seq 1024 1000 1 - - - mt,0,1,1500 mt,0,2,10 st,1,700 mw,0,810 pk,1,700 pk,0,100",
     # all mkostemp attempts fail; then reset re-arms tempdir_idx
     "seq 1024 0 3 - fff - am,0,1,100 sw,1,100 sw,1,100 rs,1 sw,1,100",
@@ -534,6 +523,16 @@ ZERO_PROBES = [
      ["seq 1024 0 1 - - - bo,0,1,0 gm,0,1,2,0 am,0,3,10 pk,0,100"]),
     ("cq(0-length: to_tempfiles with a trailing empty chunk)",
      ["seq 1024 0 1 - - 100 am,0,1,10 ad,0,0,0,5 mt,1,2,0 ac,0 mt,0,4,10 pk,0,1000"]),
+]
+
+# partial steal / range copy out of a temp chunk whose descriptor is closed (its
+# temp file is full), then the owner is consumed and unlinks the file: the
+# copied bytes must still come out
+READ_PROBES = [
+    ("cq(partial copy of a closed temp chunk outlives its owner)",
+     ["seq 1024 2 1 - - - mt,0,1,5 mt,0,2,1 st,1,2 mw,0,3 pk,1,2 rd,1,2",
+      "seq 1024 2 1 - - - mt,0,1,5 mt,0,2,1 cr,1,0,1,3 mw,0,6 pk,1,3 rd,1,3",
+      "seq 1024 2 1 - - - mt,0,1,5 mt,0,2,1 st,1,2 rs,0 sq,1 pk,1,2"]),
 ]
 
 
@@ -623,7 +622,7 @@ def run(ctx):
         ("cq(64 KiB sizes)", gen_random(rng, 250 if q else 4000, False, big=True)
          + gen_random(rng, 250 if q else 4000, True, big=True)),
         ("cq(1 MiB temp files)", gen_megabyte(rng, 4 if q else 60)),
-    ] + ZERO_PROBES + [
+    ] + READ_PROBES + ZERO_PROBES + [
         ("cq(0-length operations, random)", gen_random(rng, 1500 if q else 30000, False, zero=True, maxops=14)
          + gen_random(rng, 1500 if q else 30000, True, zero=True, maxops=14)),
     ]
